@@ -12,6 +12,7 @@ from harness import core, gen_scheme
 from harness.props import c02
 from harness.props import _c13_gen as gen
 from harness.props import _c13_oracle as orc
+from harness.props import _c13_translate as trl
 
 PROP = "C13"
 REQUIRED_THEOREMS = [
@@ -52,6 +53,24 @@ REQUIRED_THEOREMS = [
     "stderr_stored",
     "stderr_log_space",
     "stderr_nonneg",
+    "generated_counts_eq_model",
+    "generated_statistics_eq_model",
+    "generated_rmse_eq_model",
+    "generated_create_result_eq_createStats",
+    "generated_cutoff_eq_model",
+    "generated_covariance_eq_model",
+    "generated_standard_errors_eq_model",
+    "generated_stored_standard_error_eq_model",
+    "standard_errors_sqrt_of_radicands",
+    "generated_dataset_rmse_eq_model",
+    "generated_linked_number_of_clps_eq_model",
+    "generated_unlinked_number_of_clps_eq_model",
+    "chi_square_from_dataset_rmse",
+    "unweighted_rmse_not_chi_square_counterexample",
+    "stats_total",
+    "negative_dof_has_no_rmse",
+    "stderr_of_singular_direction",
+    "report_shows_the_statistics",
 ]
 TRUSTED = [
     "hand-written model lean/GlotaranModel/C13.lean (on top of C02.lean, C03.lean, C11.lean) of Optimizer.create_result, "
@@ -63,6 +82,10 @@ TRUSTED = [
     "objective at the optimised parameters; jac is taken as the Jacobian the statement talks about)",
     "LAPACK / scipy.optimize.nnls numerics (statistics derived from residuals are compared with the exact rational model at relative 1e-8)",
     "numpy sqrt / exp / log as elementary functions (terms printed by the model are evaluated with them; radicands are compared exactly)",
+    "the function-level translator harness/props/_c13_translate.py (Python ast -> Lean definitions in Generated/C13Fns.lean, with its type "
+    "inference int / float / array and the numpy vocabulary lean/GlotaranModel/C13Py.lean: meaning of .size, len, range, sum, max, **, np.sum, "
+    "np.dot, .max(initial=), boolean-mask indexing, .T, broadcast division, @, np.diag, np.sqrt, np.finfo(float).eps, Python float division); the "
+    "generated definitions are proved equal to the hand-written model, which the differential correspondence ties to the running code",
 ]
 ASSUMPTIONS = [
     "megacomplex outputs are inputs of the model (test megacomplexes with prescribed matrices, evaluated at the optimised parameters)",
@@ -95,10 +118,40 @@ RULE = (
     "number_of_clps of the real providers with the oracle's label count, with the total number of columns of the matrices the real code "
     "hands to the linear solver (captured), and with the model. The Lean witness of residual_count_linked_counterexample (first dataset of a "
     "linked group repeats a global coordinate) is run on the driver and on the real code (which must refuse it or count 4 residuals). "
+    "Every successful Result additionally has its report checked: Result.markdown(with_model=False) is parsed and every statistic row must show "
+    "the field of that name (integers exactly, floats to the digits of .2e; once per run also for a copy of the Result whose float statistics are "
+    "exactly 0), the per-dataset table must show the weighted / unweighted RMSE attributes in that order, chi-square must equal the sum over "
+    "datasets of size x weighted_root_mean_square_error^2 plus the squared penalties, and a free parameter whose Jacobian column is exactly zero "
+    "must have a zero covariance row and standard error 0 (judged where the Penrose identities are). A deterministic edge stream runs dof = 0 "
+    "(the code must raise ZeroDivisionError exactly when N = free + clps), dof < 0 (RMSE and standard errors nan), all parameters fixed "
+    "(least_squares refuses an empty vector: no Result), a parameter nothing depends on (plain and non-negative), max_nfev = 1 for every method; "
+    "termination reasons are counted. "
     "non-trivial = chi-square > 0 and at least one free parameter; distinct = distinct spec"
 )
 RTOL_MODEL = 1e-8
 EPS = 2.0 ** -52
+
+
+# ------------------------------------------------------------------------------------------------
+# translator: the statistics code, function by function, as Lean definitions (regenerated on every run)
+# ------------------------------------------------------------------------------------------------
+LEAN_GEN = core.LEAN / "GlotaranModel" / "Generated" / "C13Fns.lean"
+GEN_SOURCES = ["glotaran/optimization/optimizer.py", "glotaran/optimization/optimization_group.py",
+               "glotaran/optimization/matrix_provider.py", "glotaran/project/result.py"]
+
+
+def generate(ck):
+    text, report = trl.translate(core.REPO)
+    trl.write_if_changed(LEAN_GEN, text)
+    ck.extra["translated_definitions"] = report
+    bad = {k: v for k, v in report.items() if v != "ok"}
+    if bad:
+        ck.extra["untranslatable"] = bad
+    return [{"table": "C13Fns: one Lean definition per assignment of Optimizer.create_result (statistics), "
+                      "calculate_covariance_matrix_and_standard_errors (cut-off, mask, covariance, standard errors, loop body), "
+                      "OptimizationGroup.create_result_data (RMSE attributes), MatrixProvider{Linked,Unlinked}.number_of_clps; "
+                      "rows of Result.markdown (label, field, how it is shown)",
+             "source": ", ".join(GEN_SOURCES), "sha1": trl.sha1(text)}]
 
 
 # ------------------------------------------------------------------------------------------------
@@ -454,7 +507,20 @@ def check_spec(ck, spec, batch, te):
             ck.diagnostic("optimize(scheme) did not return within 120 s (run abandoned)", light)
         elif kind == "non-finite-matrix":
             ck.diagnostic("the optimiser drove a parameter to a value that makes the model matrix non-finite or larger than 1e100 (run abandoned)", light)
-        elif kind not in ("dof-zero", "AlignDatasetError"):
+        elif kind == "dof-zero":
+            # the only way the statistics are undefined: reduced chi-square at dof = 0 (Lean: stats_total) — the code raises
+            # ZeroDivisionError in create_result; it must do so exactly when N - free parameters - clps = 0
+            exp = orc.expected_clps(spec)
+            if exp is not None:
+                pens = sum(1 for _ in spec.get("penalties") or [])
+                dof = orc.expected_points(spec) - len(gen.free_labels(spec)) - sum(exp)
+                ck.count("dof-zero:expected-dof=" + ("0" if dof == 0 else "nonzero-before-penalties" if pens else "nonzero"))
+                if dof != 0 and not pens:
+                    ck.violation("zero-division-with-nonzero-dof", f"create_result raised ZeroDivisionError but N - free - clps = {dof}", light)
+        elif kind == "ValueError" and not gen.free_labels(spec) and "zero-size array" in real["error"]:
+            # all parameters fixed: scipy.optimize.least_squares cannot take an empty parameter vector — no successful Result exists
+            ck.count("real-error:all-parameters-fixed:least-squares-refuses-empty-x")
+        elif kind not in ("AlignDatasetError",):
             if kind == "ValueError" and "Levenberg-Marquardt" == spec.get("optimization_method") and "`lm`" in real["error"]:
                 ck.count("real-error:lm-needs-more-residuals-than-parameters")
             else:
@@ -468,6 +534,9 @@ def check_spec(ck, spec, batch, te):
         ck.case(("spec", json.dumps(spec, sort_keys=True, default=str)), False)
         return
     ck.count(f"result:nfev={min(res.number_of_function_evaluations, 9)}")
+    reason = str(res.termination_reason)
+    ck.count("result:termination=" + ("max-nfev" if "maximum number of function evaluations" in reason else
+                                      "converged" if "termination condition is satisfied" in reason else "other"))
     facts = orc.check_result(ck, spec, res, light)
     nontrivial = facts.get("chi", 0) > 0 and facts.get("nfree", 0) > 0
     exp = facts.get("expected_clps")
@@ -909,6 +978,53 @@ def replay_counterexample(ck):
 
 
 # ------------------------------------------------------------------------------------------------
+# edge cases the property quantifies over (deterministic): dof = 0, dof < 0, all parameters fixed, a parameter nothing
+# depends on (zero column of the Jacobian), termination by max_nfev after a single evaluation
+# ------------------------------------------------------------------------------------------------
+def edge_spec(rng, n_model, n_global, free, extra_par=0, method="TrustRegionReflection", max_nfev=3, non_negative=(), labels=("s1",)):
+    pars = {f"p.{i + 1}": 1.0 + 0.5 * i for i in range(max(1, free + extra_par))}
+    col = lambda: [[float(rng.randint(-3, 5))] for _ in range(n_model)]
+    mcs = [{"labels": list(labels), "index_dependent": False, "base": [[float(rng.randint(-3, 5)) for _ in labels] for _ in range(n_model)],
+            "pars": None, "scale": None}]
+    for k in range(free):
+        mcs.append({"labels": [labels[0]], "index_dependent": False, "base": col(), "pars": [f"p.{k + 1}"], "scale": None})
+    return {"groups": {"default": {"link_clp": False, "residual_function": "variable_projection"}}, "parameters": pars,
+            "datasets": [{"label": "d1", "group": "default", "global_axis": [float(i) for i in range(n_global)],
+                          "model_axis": [float(i) for i in range(n_model)], "dims_order": "mg",
+                          "data": [[float(rng.randint(-4, 6)) + 0.5 for _ in range(n_global)] for _ in range(n_model)], "weight": None, "scale": None,
+                          "mcs": mcs, "gmcs": []}],
+            "constraints": [], "relations": [], "penalties": [], "weights": [], "optimization_method": method, "max_nfev": max_nfev,
+            "vary": [f"p.{i + 1}" for i in range(free + extra_par)], "non_negative": list(non_negative), "add_svd": False, "stream": "edge"}
+
+
+def edge_specs(rng):
+    out = []
+    for method in ("TrustRegionReflection", "Dogbox"):
+        out.append(("dof-zero", edge_spec(rng, 2, 2, 2, method=method)))              # N = 4 = 2 free + 2 clps
+        out.append(("dof-negative", edge_spec(rng, 2, 2, 3, method=method)))          # N = 4 < 3 free + 2 clps
+    out.append(("dof-negative", edge_spec(rng, 2, 2, 3, method="Levenberg-Marquardt")))
+    out.append(("dof-zero", edge_spec(rng, 3, 3, 3, labels=("s1", "s2"))))            # N = 9 = 3 free + 6 clps
+    s = edge_spec(rng, 4, 3, 0)
+    s["vary"] = []
+    out.append(("all-fixed", s))
+    for nn in ((), ("p.2",)):
+        for method in ("TrustRegionReflection", "Levenberg-Marquardt"):
+            out.append(("zero-jacobian-column", edge_spec(rng, 4, 3, 1, extra_par=1, non_negative=nn, method=method)))
+    for method in METHODS_ALL:
+        out.append(("max-nfev-1", edge_spec(rng, 5, 3, 1, max_nfev=1, method=method)))
+    return out
+
+
+METHODS_ALL = ["TrustRegionReflection", "Dogbox", "Levenberg-Marquardt"]
+
+
+def run_edges(ck, batch, te):
+    for kind, spec in edge_specs(ck.rng):
+        ck.count("stream:edge:" + kind)
+        check_spec(ck, spec, batch, te)
+
+
+# ------------------------------------------------------------------------------------------------
 def term_eval():
     from harness.props import c11
     return c11.TermEval()
@@ -966,6 +1082,8 @@ def run(ck):
         ck.count("stream:clp-count" + (":tolerance" if method else ""))
         if len(batch) >= 400:
             flush_any(ck, batch)
+    flush_any(ck, batch)
+    run_edges(ck, batch, te)
     flush_any(ck, batch)
     replay_counterexample(ck)
     ck.extra["term_eval_max_rel_error_vs_mpmath"] = te.max_rel
